@@ -55,7 +55,8 @@ def r2(fx):
 
     def rec(name):
         def f(*a, **k):
-            calls.append((name, a, k))
+            from .. import refsig
+            calls.append((name, a, refsig.drop_new_defaults(fx.forest, 'writers', name, k)))
         return f
     io_ns = ev.Namespace('io', {'BytesIO': _BytesIO})
     import base64 as _b64
@@ -148,7 +149,8 @@ def r2(fx):
 
     def wrec(name):
         def f(*a_, **k_):
-            wcalls.append((name, a_, k_))
+            from .. import refsig
+            wcalls.append((name, a_, refsig.drop_new_defaults(fx.forest, 'writers', name, k_)))
             return f'<{name} result>'
         return f
     stdout = object()
@@ -346,7 +348,10 @@ def _parser_defaults(fx):
         if action == 'version':
             continue
         if 'default' in kw:
-            default = ev.ev(kw['default'], {})
+            import argparse as _ap
+            default = ev.ev(kw['default'], {'argparse': ev.Namespace('argparse', {'SUPPRESS': _ap.SUPPRESS})})
+            if default == _ap.SUPPRESS:
+                continue        # the destination exists only when the option is given: the configuration of old command lines is unchanged
         elif action == 'store_true':
             default = False
         elif action == 'store_false':
@@ -522,12 +527,14 @@ def r4(fx):
 
                 @staticmethod
                 def make(content, **kw):
-                    calls.append(('make', content, kw))
+                    from .. import refsig
+                    calls.append(('make', content, refsig.drop_new_defaults(fx.forest, '__init__', 'make', kw)))
                     return '<qr>'
 
                 @staticmethod
                 def make_sequence(content, **kw):
-                    calls.append(('make_sequence', content, kw))
+                    from .. import refsig
+                    calls.append(('make_sequence', content, refsig.drop_new_defaults(fx.forest, '__init__', 'make_sequence', kw)))
                     return '<seq>'
                 make_qr = make_micro = make
             cfg = _RecCfg(dict(defaults, **vals), seq=seq)
